@@ -103,6 +103,24 @@ def run(ck):
                           "rejects when the value %s %s" % ({"Gt": ">", "Ge": ">="}.get(rel, str(rel)), kn) if rel else "comparison with %s is not enforced (%s)" % (kn, d), f.loc(cx["bb"]))
     for kn, fl in sorted(LIMIT_FLOORS.items()):
         ck.floor("CMP", "enforcement sites of " + kn, counts.get(kn, 0), fl)
+    # segment offsets are interpreted as unsigned before their end is bounded (compilation indexes with `offset as usize`)
+    vm = getfn(ck, "sc", W, W + "::validate::validate_module")
+    if vm:
+        nseg = 0
+        for cx in rules.comparisons(vm):
+            for side, other in (("a", "b"), ("b", "a")):
+                o = vm.origins(cx[side], deep=True)
+                oo = vm.origins(cx[other], deep=True)
+                if ("field", "offset") in o and ("field", "min") in oo and ("field", "offset") not in oo:
+                    nseg += 1
+                    unsigned = ("cast", "u32") in o or has_call_origin(o, r"TryInto::try_into$|TryFrom::try_from$")
+                    signed_arith = has_call_origin(o, r"_signed$|checked_add_signed|wrapping_add_signed|saturating_add_signed")
+                    plain_add = has_call_origin(o, r"num::<impl u32>::checked_add$|::checked_add$")
+                    ck.ob("DEFUSE", vm.path, "segment-end-unsigned#%d" % nseg, unsigned and plain_add and not signed_arith,
+                          "segment end = (offset as unsigned) checked_add length, compared with the declared minimum" if unsigned and plain_add and not signed_arith else
+                          "the segment end is computed with signed arithmetic / without reinterpreting the offset as unsigned: a negative offset passes validation", vm.loc(cx["bb"]))
+        ck.floor("DEFUSE", "segment end comparisons against the declared minimum", nseg, 1)
+
     # values and relations
     cv = {}
     for kn, val in sorted(LIMIT_VALUES.items()):
